@@ -304,15 +304,34 @@ func runC18Rate(t *testing.T, seed uint64, m *Mask, opt world.Options, proto str
 		}
 		sustained = update && r2.Chance(0.5)
 	}
+	// an update may also lower the limit of one handler - by editing the configuration the plugin hands out
+	// (read-modify-write of LimitConfig()) or with a freshly built one
+	handlerLimit2, handlerRMW := int32(0), false
+	{
+		r4 := simrt.NewRand(simrt.Mix(seed, 1802))
+		if update && handlerLimit > 2 && r4.Chance(0.6) {
+			handlerLimit2 = 1 + handlerLimit/4
+			handlerRMW = r4.Chance(0.6)
+			sustained = false // the total bucket must be full when the handler's burst arrives
+			if limit2 < limit1 {
+				limit2 = limit1 // the total limit stays out of the way of the handler's
+			}
+			if handlerRMW && r4.Chance(0.7) {
+				interval2 = interval
+			}
+		}
+	}
 	perSec2 := int32(time.Second / interval2)
 	nBursts := 2 + r.Intn(5)
 	type burst struct {
 		at time.Duration
 		n  int
+		// echoOnly: calls of the one limited handler only
+		echoOnly bool
 	}
 	var bursts []burst
 	for i := 0; i < nBursts; i++ {
-		bursts = append(bursts, burst{time.Duration(r.Intn(int(total))), 1 + r.Intn(int(limit1)+10)})
+		bursts = append(bursts, burst{at: time.Duration(r.Intn(int(total))), n: 1 + r.Intn(int(limit1)+10)})
 	}
 	if sustained {
 		settle := 2 * interval
@@ -320,9 +339,20 @@ func runC18Rate(t *testing.T, seed uint64, m *Mask, opt world.Options, proto str
 			settle = 2 * interval2
 		}
 		for k := 0; k < 8; k++ {
-			bursts = append(bursts, burst{updateAt + settle + time.Duration(k)*interval2 + interval2/2, int(limit2)/2 + 3})
+			bursts = append(bursts, burst{at: updateAt + settle + time.Duration(k)*interval2 + interval2/2, n: int(limit2)/2 + 3})
 		}
 		if min := updateAt + settle + 10*interval2; total < min {
+			total = min
+		}
+	}
+	if handlerLimit2 > 0 {
+		// all at once, to the limited handler only, as many as its old limit allowed
+		settle := 2 * interval
+		if interval2 > interval {
+			settle = 2 * interval2
+		}
+		bursts = append(bursts, burst{at: updateAt + settle + 12*interval2 + interval2/2, n: int(handlerLimit) + 2, echoOnly: true})
+		if min := updateAt + settle + 15*interval2; total < min {
 			total = min
 		}
 	}
@@ -364,7 +394,14 @@ func runC18Rate(t *testing.T, seed uint64, m *Mask, opt world.Options, proto str
 				simrt.Sleep(b.at)
 				sub := 0
 				for j := 0; j < b.n; j++ {
-					op := &world.Op{Idx: 1000*bi + j, Tag: fmt.Sprintf("T%x.b%d.%d", seed&0xffffff, bi, j), Kind: []string{"call", "call", "push"}[e.Gen.Intn(3)], Route: "echo", Data: "d", MetaK: "Mk", MetaV: "v", Codec: 'j'}
+					idx := 1000*bi + j
+					if b.echoOnly {
+						idx *= 3 // the standard world sends every third operation to the controller form of the handler
+					}
+					op := &world.Op{Idx: idx, Tag: fmt.Sprintf("T%x.b%d.%d", seed&0xffffff, bi, j), Kind: []string{"call", "call", "push"}[e.Gen.Intn(3)], Route: "echo", Data: "d", MetaK: "Mk", MetaV: "v", Codec: 'j'}
+					if b.echoOnly {
+						op.Kind = "call"
+					}
 					if op.Kind == "push" {
 						op.Route = "note"
 					}
@@ -381,6 +418,12 @@ func runC18Rate(t *testing.T, seed uint64, m *Mask, opt world.Options, proto str
 			simrt.GoNamed("updater", func() {
 				simrt.Sleep(updateAt)
 				c2 := cfg
+				if handlerLimit2 > 0 && handlerRMW {
+					c2 = ov.LimitConfig() // what the plugin hands out: the application edits it and hands it back
+					c2.MaxHandlerQPS[0].MaxQPS = handlerLimit2
+				} else if handlerLimit2 > 0 {
+					c2.MaxHandlerQPS = []overloader.HandlerLimit{{ServiceMethod: rt.Echo, MaxQPS: handlerLimit2}}
+				}
 				c2.MaxTotalQPS = limit2
 				c2.QPSInterval = interval2
 				ov.Update(c2)
@@ -460,6 +503,28 @@ func runC18Rate(t *testing.T, seed uint64, m *Mask, opt world.Options, proto str
 					break
 				}
 			}
+		}
+		// the limited handler on its own, once the update has settled: its lowered limit is in force
+		if handlerLimit2 > 0 && updatedAt >= 0 {
+			var hs []time.Duration
+			for _, ev := range e.Obs.Handlers {
+				if !ev.Exit && ev.Method == rt.Echo && ev.At-start >= updatedAt+2*longer {
+					hs = append(hs, ev.At-start)
+				}
+			}
+			refill := onceAt(handlerLimit2, perSec2)
+			for i := range hs {
+				for j := i; j < len(hs); j++ {
+					n := int32(j - i + 1)
+					ticks := int32((hs[j]-hs[i])/interval2) + 1
+					if bound := handlerLimit2 + (refill+1)*(ticks+1); n > bound {
+						e.Fail("C18/handler-rate-above-bound", "%s: %d calls of the limited handler were handled in the window [%v, %v] after its limit was lowered to %d (rmw=%v): capacity %d + (refill %d + 1) * (%d ticks + 1) = %d (update at %v)", rep.Cell, n, hs[i], hs[j], handlerLimit2, handlerRMW, handlerLimit2, refill, ticks, bound, updatedAt)
+						i = len(hs)
+						break
+					}
+				}
+			}
+			e.Probe("c18-handler-limit-lowered")
 		}
 		e.Probe(fmt.Sprintf("admitted=%d/%d", len(admitted)/10*10, len(ops)/10*10))
 		e.CloseAll()
